@@ -29,6 +29,12 @@ CHECKS = {
     "C07": dict(level="other", engine="pysym", technique="symbolic indentation/kind vectors through the real block collectors (pysym), z3 regular-expression inclusion on the live header patterns, CrossHair on _strip_inline_comment; layout metamorphic cross-check through the real pipeline",
                 text="bounded symbolic check that the block extent computed by the real collectors is Python's for every indentation/comment/blank arrangement within the bound, that header recognisers accept every spelling of the spec language, and that comment stripping matches a reference scanner; plus byte-identity of the firmware under 13 re-layouts of every skeleton",
                 note="block lines <= 3 (quick) / 4; regex subset translator; the layout part is concrete per variant and the ignored-line audit uses the REDUINO_VERIF hook"),
+    "C08": dict(level="other", engine="pysym", technique="z3 all-models enumeration of the calling conventions inspect.signature allows (symbolic per-parameter passing mode and keyword order); each model rendered and bound by the real parse(); compared with the fully explicit call",
+                text="every calling convention Python accepts for every constructor/method/Core helper (enumerated exhaustively by z3 from the signature constraints) is either rejected or yields the firmware of the explicit call carrying the values Python binds",
+                note="marker values per parameter; provider/callback parameters outside the check; comparison on emitted text modulo numeric-literal spelling"),
+    "C10": dict(level="other", engine="pysym", technique="set iteration order made a solver-chosen permutation inside the real parser/emitter modules (instrumented set type + AST rewrite of set literals), all order choices explored by symbolic path enumeration; replay under PYTHONHASHSEED 0..63",
+                text="partial: output independence from set-iteration order decided over all order choices (reverse/rotate per iteration site) for the enumerated scripts; independence from earlier calls is a concrete cross-check only",
+                note="history/interleaving and cross-platform ordering are outside the solver claim (stated in evidence)"),
     "C09": dict(level=TV, engine="fwsym+pysym", technique="symbolic execution of the emitted C++ (IR) with memory/UB monitors under the CPython path condition; heap sampled per pass; ASan/UBSan replay",
                 text="bounded symbolic memory-safety and leak checking of list/str skeletons over N passes, indices constrained by the CPython run to be IndexError-free",
                 note="trusted: fwsym memory model (validated by ASan/UBSan replay), mock String keeps characters inline (core String heap traffic outside the claim)"),
